@@ -55,7 +55,9 @@ Qed.
 Lemma image_wf e : forall t T, wf_tenv t -> consts_ok e -> image cap t e = Some T -> WF cap T.
 Proof.
   induction e as [n|z|op l IHl r IHr]; intros t T Ht Hc; cbn [image].
-  - revert n. induction Ht as [|y t' Hy Ht' IH]; intros [|n]; cbn; try discriminate; auto. intros [= <-]. exact Hy.
+  - clear Hc. revert n. induction Ht as [|y t' Hy Ht' IH]; intros [|n]; cbn; try discriminate.
+    + intros [= <-]. exact Hy.
+    + apply IH.
   - intros [= <-]. split; [cbn; lia|cbn; lia].
   - destruct Hc as [Hl Hr]. destruct (image cap t l) as [A|] eqn:EA; [|discriminate].
     destruct (image cap t r) as [B|] eqn:EB; [|discriminate]. cbn [obind].
@@ -99,7 +101,7 @@ Proof.
   - inversion Hx; inversion Hy; subst.
     destruct (f a b) as [c|] eqn:E; [|discriminate]. cbn [obind].
     destruct (map2_opt f x y) as [t|] eqn:E2; [|discriminate]. cbn [obind]. intros [= <-].
-    constructor; eauto.
+    constructor; [eapply (Hf a b c); eauto|eapply (IH y t); eauto].
 Qed.
 
 Lemma inter_wf_out a b c : WF cap a -> WF cap b -> intersection cap a b = Some c -> WF cap c.
@@ -132,9 +134,11 @@ Proof.
   - destruct (nth_error t col) as [S0|] eqn:En; auto.
     destruct (from_intervals_sound cap cap_gt1 _ (values_wf vs)) as (V & EV & WV & _). rewrite EV. cbn [obind].
     assert (WS : WF cap S0).
-    { clear -Ht En. revert col En. induction Ht as [|y t' Hy Ht' IH]; intros [|n]; cbn; try discriminate; eauto. intros [= <-]; auto. }
+    { clear -Ht En. revert col En. induction Ht as [|y t' Hy Ht' IH]; intros [|n]; cbn; try discriminate.
+      - intros [= <-]; auto.
+      - apply IH. }
     destruct (inter_some_wf V S0 WV WS) as (S1 & -> & W). now apply replace_nth_wf.
-  - destruct b; auto. clear. induction t; cbn; constructor; auto. split; cbn; [exact I|lia].
+  - destruct b; auto. clear Ht. induction t; cbn; constructor; auto. apply (WF_nil cap cap_gt1).
   - exact Ht.
 Qed.
 
@@ -144,18 +148,26 @@ Proof.
   { intros f x. induction x as [|a x IH]; intros [|b y] z; cbn; try discriminate.
     - intros _ [= <-]. reflexivity.
     - intros Hl. destruct (f a b); [|discriminate]. cbn [obind]. destruct (map2_opt f x y) eqn:E; [|discriminate].
-      cbn [obind]. intros [= <-]. cbn. f_equal. eapply IH; eauto. }
+      cbn [obind]. intros [= <-]. cbn. f_equal. eapply IH; [|exact E]. lia. }
   induction p as [c l r|p IHp q IHq|p IHp q IHq|col vs|b|e]; intros t; cbn [narrow].
   - assert (G : forall l r, length (narrow_ge cap t l r) = length t).
-    { intros l0 r0. unfold narrow_ge. destruct (image cap t l0); auto. destruct (image cap t r0); auto.
-      destruct (col_of r0); destruct (col_of l0);
-      repeat (match goal with |- context [match ?x with _ => _ end] => destruct x end); rewrite ?replace_nth_length; auto. }
-    destruct c; auto. unfold narrow_eq. destruct (image cap t l); auto. destruct (image cap t r); auto.
-    destruct (intersection cap l0 l1); auto. destruct (col_of l), (col_of r); rewrite ?replace_nth_length; auto.
-  - destruct (map2_opt _ _ _) as [z|] eqn:E; cbn [or_else]; auto.
-    rewrite (M _ _ _ _ ltac:(rewrite !IHp, !IHq; reflexivity) E). now rewrite IHp, IHq.
-  - destruct (map2_opt _ _ _) as [z|] eqn:E; cbn [or_else]; auto.
-    rewrite (M _ _ _ _ ltac:(rewrite IHp, IHq; reflexivity) E). now rewrite IHq.
+    { intros l0 r0. unfold narrow_ge. destruct (image cap t l0) as [A|]; auto. destruct (image cap t r0) as [B|]; auto.
+      set (t1 := match col_of l0 with
+                 | Some n => match obind (bin_image cap Greatest A B) (fun G => intersection cap G A) with
+                             | Some S0 => replace_nth n S0 t | None => t end
+                 | None => t end).
+      assert (L1 : length t1 = length t).
+      { unfold t1. destruct (col_of l0); auto. destruct (obind _ _); auto. apply replace_nth_length. }
+      destruct (col_of r0) as [n|]; [|exact L1]. destruct (obind (bin_image cap Least A B) _) as [S1|]; [|exact L1].
+      rewrite replace_nth_length. exact L1. }
+    destruct c; auto. unfold narrow_eq. destruct (image cap t l) as [A|]; auto. destruct (image cap t r) as [B|]; auto.
+    destruct (intersection cap A B); auto. destruct (col_of l), (col_of r); rewrite ?replace_nth_length; auto.
+  - destruct (map2_opt (intersection cap) (narrow cap (narrow cap t q) p) (narrow cap (narrow cap t p) q)) as [z|] eqn:E; cbn [or_else]; auto.
+    assert (L : length (narrow cap (narrow cap t q) p) = length (narrow cap (narrow cap t p) q)) by (rewrite (IHp (narrow cap t q)), (IHq t), (IHq (narrow cap t p)), (IHp t); reflexivity).
+    rewrite (M _ _ _ _ L E). now rewrite (IHp (narrow cap t q)), (IHq t).
+  - destruct (map2_opt (union cap) (narrow cap t q) (narrow cap t p)) as [z|] eqn:E; cbn [or_else]; auto.
+    assert (L : length (narrow cap t q) = length (narrow cap t p)) by (rewrite (IHq t), (IHp t); reflexivity).
+    rewrite (M _ _ _ _ L E). apply IHq.
   - destruct (nth_error t col); auto. destruct (obind _ _); auto. apply replace_nth_length.
   - destruct b; auto. apply map_length.
   - reflexivity.
@@ -205,13 +217,14 @@ Qed.
 Lemma map2_inter_typed env : forall x y z, typed env x -> typed env y ->
   map2_opt (intersection cap) x y = Some z -> typed env z.
 Proof.
-  induction env as [|v env IH]; intros x y z Hx Hy; inversion Hx; inversion Hy; subst; cbn.
-  - intros [= <-]. constructor.
-  - match goal with H1 : col_ok v ?a, H2 : col_ok v ?b |- _ => destruct H1 as (Wa & Ma & Iv); destruct H2 as (Wb & Mb & _);
-      destruct (intersection_sound cap cap_gt1 a b Wa Wb) as (c & Ec & Wc & Mc); rewrite Ec end.
-    cbn [obind]. match goal with |- context [map2_opt _ ?p ?q] => destruct (map2_opt (intersection cap) p q) as [t|] eqn:E end; [|discriminate].
-    cbn [obind]. intros [= <-]. constructor; [|eapply IH; eauto].
-    split; auto. split; auto. apply Mc. now rewrite Ma, Mb.
+  induction env as [|v env IH]; intros x y z Hx Hy.
+  - inversion Hx; inversion Hy; subst. cbn. intros [= <-]. constructor.
+  - inversion Hx as [|? a ? x' Ha Hx']; inversion Hy as [|? b ? y' Hb Hy']; subst. cbn [map2_opt].
+    destruct Ha as (Wa & Ma & Iv). destruct Hb as (Wb & Mb & _).
+    destruct (intersection_sound cap cap_gt1 a b Wa Wb) as (c & Ec & Wc & Mc). rewrite Ec. cbn [obind].
+    destruct (map2_opt (intersection cap) x' y') as [t|] eqn:E; [|discriminate]. cbn [obind]. intros [= <-].
+    constructor; [|exact (IH x' y' t Hx' Hy' E)].
+    split; [exact Wc|]. split; [|exact Iv]. apply Mc. now rewrite Ma, Mb.
 Qed.
 
 Lemma map2_union_typed env : forall x y z, (typed env x /\ wf_tenv y) \/ (wf_tenv x /\ typed env y) ->
@@ -251,22 +264,24 @@ Proof.
     assert (T1 : typed env (narrow cap (narrow cap t q) p)) by auto.
     assert (T2 : typed env (narrow cap (narrow cap t p) q)) by auto.
     destruct (map2_opt (intersection cap) _ _) as [z|] eqn:E; cbn [or_else]; auto.
-    eapply map2_inter_typed; eauto.
+    exact (map2_inter_typed env _ _ z T1 T2 E).
   - destruct Hp as [Hp Hq].
     destruct (map2_opt (union cap) (narrow cap t q) (narrow cap t p)) as [z|] eqn:E; cbn [or_else]; auto.
     pose proof (typed_wf env t Ht) as Wt.
-    eapply map2_union_typed; [|rewrite !narrow_length; reflexivity|exact E].
+    apply (map2_union_typed env (narrow cap t q) (narrow cap t p) z); [|rewrite (narrow_length q t), (narrow_length p t); reflexivity|exact E].
     apply orb_true_iff in He as [He|He].
     + right. split; [apply narrow_wf; auto|auto].
     + left. split; [auto|apply narrow_wf; auto].
   - destruct (nth_error env col) as [x|] eqn:Ex; [|discriminate].
     assert (exists S0, nth_error t col = Some S0 /\ col_ok x S0) as (S0 & En & (WS & MS & IS)).
-    { clear -Ht Ex. revert col Ex. induction Ht as [|v S1 env' t' Hc Hrest IH]; intros [|n]; cbn; try discriminate; eauto. intros [= <-]; eauto. }
+    { clear -Ht Ex. revert col Ex. induction Ht as [|v S1 env' t' Hc Hrest IH]; intros [|n]; cbn; try discriminate.
+      - intros [= <-]; eauto.
+      - apply IH. }
     rewrite En.
     destruct (from_intervals_sound cap cap_gt1 _ (values_wf vs)) as (V & EV & WV & MV). rewrite EV. cbn [obind].
     destruct (intersection_sound cap cap_gt1 V S0 WV WS) as (S1 & ES & WS1 & MS1). rewrite ES.
     eapply replace_nth_typed; eauto. apply MS1. rewrite MS, andb_true_r. apply MV.
-    apply existsb_exists in He as (w & Hw & Hx). apply existsb_exists. exists (w, w). split; [now apply in_map|].
+    apply existsb_exists in He as (w & Hw & Hx). apply existsb_exists. exists (w, w). split; [apply (in_map (fun v0 => (v0, v0)) vs w Hw)|].
     unfold in_itv; cbn. lia.
   - destruct b; [exact Ht|discriminate].
   - exact Ht.
